@@ -128,9 +128,10 @@ fn density(shape: u64, x: f64) -> f64 {
     }
 }
 
-fn integ_result(samples: &[(i64, f64)], res: f64, width: f64) -> Value {
+/// samples = (grid position of the abscissa, returned log-density, index handed to the density)
+fn integ_result(samples: &[(i64, f64, i64)], res: f64, width: f64) -> Value {
     let m = lpmax_of(&samples.iter().map(|s| s.1).collect::<Vec<f64>>());
-    let calls: Vec<Value> = samples.iter().map(|&(k, lp)| json!([k, fixop(lp, m)])).collect();
+    let calls: Vec<Value> = samples.iter().map(|&(k, lp, i)| json!([k, fixop(lp, m), i])).collect();
     // normalised by (width * largest sample)
     let mut v = fix(res - width.ln(), m, UNIT);
     v["calls"] = Value::Array(calls);
@@ -139,12 +140,12 @@ fn integ_result(samples: &[(i64, f64)], res: f64, width: f64) -> Value {
 
 fn call_trapz_simpson(log: &mut Log, op: &str, shape: u64, a: f64, b: f64, n: usize) {
     log.call(op, json!({"n": n, "shape": shape}), || {
-        let mut samples: Vec<(i64, f64)> = vec![];
-        let dens = |_i: usize, x: f64| {
+        let mut samples: Vec<(i64, f64, i64)> = vec![];
+        let dens = |i: usize, x: f64| {
             let lp = density(shape, x);
             // projection of the abscissa onto its grid index
             let k = ((x - a) / (b - a) * (n as f64 - 1.0)).round() as i64;
-            samples.push((k, lp));
+            samples.push((k, lp, i as i64));
             LogProb(lp)
         };
         let res = if op == "trapz" {
@@ -159,26 +160,71 @@ fn call_trapz_simpson(log: &mut Log, op: &str, shape: u64, a: f64, b: f64, n: us
 fn call_grid(log: &mut Log, shape: u64, grid: &[i64]) {
     let g: Vec<f64> = grid.iter().map(|&x| x as f64).collect();
     log.call("grid", json!({"gs": i64s(grid), "shape": shape}), || {
-        let mut seen: Vec<(i64, f64)> = vec![];
+        let mut seen: Vec<(i64, f64, i64)> = vec![];
         let dens = |i: usize, x: f64| {
             let lp = density(shape, x / 10.0);
-            let _ = x;
-            seen.push((i as i64, lp));
+            seen.push((i as i64, lp, i as i64));
             LogProb(lp)
         };
         let res = LogProb::ln_trapezoidal_integrate_grid_exp(dens, &g);
         // the rule evaluates inner points twice: report each grid index once (its first value)
-        let mut samples: Vec<(i64, f64)> = vec![];
+        let mut samples: Vec<(i64, f64, i64)> = vec![];
         let mut dup = 0;
-        for &(k, lp) in &seen {
+        for &(k, lp, i) in &seen {
             if samples.iter().any(|s| s.0 == k) {
                 dup += 1;
             } else {
-                samples.push((k, lp));
+                samples.push((k, lp, i));
             }
         }
         let mut v = integ_result(&samples, *res, g[g.len() - 1] - g[0]);
         v["dup"] = json!(dup);
+        v
+    });
+}
+
+/// index-driven density: a table looked up by the index argument (the abscissa is only used to
+/// report which grid point the call was for). table has one spare slot because the helpers
+/// announce the right boundary as index n.
+fn call_idx(log: &mut Log, op: &str, shape: u64, a: f64, b: f64, n: usize) {
+    let h = (b - a) / (n as f64 - 1.0);
+    let mut table: Vec<f64> = (0..n).map(|k| density(shape, a + k as f64 * h)).collect();
+    table.push(table[n - 1]);
+    let m = lpmax_of(&table);
+    let tab: Vec<i64> = table[..n].iter().map(|&lp| fixop(lp, m)).collect();
+    log.call(op, json!({"n": n, "shape": shape, "table": i64s(&tab)}), || {
+        let mut calls: Vec<Value> = vec![];
+        let dens = |i: usize, x: f64| {
+            let k = ((x - a) / (b - a) * (n as f64 - 1.0)).round() as i64;
+            calls.push(json!([k, 0, i as i64]));
+            LogProb(table[std::cmp::min(i, n)])
+        };
+        let res = if op == "trapz_idx" {
+            LogProb::ln_trapezoidal_integrate_exp(dens, a, b, n)
+        } else {
+            LogProb::ln_simpsons_integrate_exp(dens, a, b, n)
+        };
+        let mut v = fix(*res - (b - a).ln(), m, UNIT);
+        v["calls"] = Value::Array(calls);
+        v
+    });
+}
+
+fn call_grid_idx(log: &mut Log, shape: u64, grid: &[i64]) {
+    let g: Vec<f64> = grid.iter().map(|&x| x as f64).collect();
+    let table: Vec<f64> = g.iter().map(|&x| density(shape, x / 10.0)).collect();
+    let m = lpmax_of(&table);
+    let tab: Vec<i64> = table.iter().map(|&lp| fixop(lp, m)).collect();
+    log.call("grid_idx", json!({"gs": i64s(grid), "shape": shape, "table": i64s(&tab)}), || {
+        let mut calls: Vec<Value> = vec![];
+        let dens = |i: usize, x: f64| {
+            let k = g.iter().position(|&y| y == x).map(|p| p as i64).unwrap_or(-1);
+            calls.push(json!([k, 0, i as i64]));
+            LogProb(table[std::cmp::min(i, table.len() - 1)])
+        };
+        let res = LogProb::ln_trapezoidal_integrate_grid_exp(dens, &g);
+        let mut v = fix(*res - (g[g.len() - 1] - g[0]).ln(), m, UNIT);
+        v["calls"] = Value::Array(calls);
         v
     });
 }
@@ -375,6 +421,11 @@ pub fn drive(log: &mut Log) {
             let b = a + 1.0 + rng.below(9) as f64;
             call_trapz_simpson(log, "trapz", shape, a, b, n);
             call_trapz_simpson(log, "simpson", shape, a, b, n);
+            // the same rules with a density that is a table looked up by the announced index
+            let ishape = 1 + rng.below(5); // non-constant
+            call_idx(log, "trapz_idx", ishape, a, b, n);
+            call_idx(log, "simpson_idx", ishape, a, b, n);
+            log.oblige("index_driven_density");
             log.oblige(match n {
                 3 => "grid_n3",
                 5 => "grid_n5",
@@ -388,6 +439,7 @@ pub fn drive(log: &mut Log) {
                 g.push(last + 1 + rng.below(6) as i64);
             }
             call_grid(log, shape, &g);
+            call_grid_idx(log, 1 + rng.below(5), &g);
         }
         call_trapz_simpson(log, "trapz", rng.below(6), 0.0, 7.0, 4); // even n is fine for the trapezoid
         log.oblige("grid_nonuniform");
@@ -584,8 +636,70 @@ pub fn drive(log: &mut Log) {
                 log.oblige("more_than_42000_summands");
             }
         }
+        // lists up to 10^7 elements: classes <<xm, xe, mult>> (value xm * 10^-xe of the dominant
+        // element): per-term ratios from e^-15 down to e^-40, totals n * r from negligible to 50 %
+        let huge: [&[(i64, i64, i64)]; 6] = [
+            &[(206, 11, 8_000_000)],                      // e^-20 x 8e6 = 1.65 %
+            &[(42, 19, 10_000_000)],                      // e^-40 x 1e7: negligible
+            &[(1, 9, 10_000_000)],                        // 1e-9 x 1e7 = 1 %
+            &[(306, 9, 1_000_000)],                       // e^-15 x 1e6 = 30.6 %
+            &[(100, 11, 5_000_000), (5, 9, 4_000_000)],   // e^-20.7 and e^-19.1: 0.5 % + 2 %
+            &[(206, 11, 2_500_000)],                      // e^-20 x 2.5e6 = 0.52 %
+        ];
+        for (hi, cl) in huge.iter().enumerate() {
+            case += 1;
+            if !log.mine(case) {
+                continue;
+            }
+            if !log.opts.thorough() && (hi as u64 + seed) % 3 != 0 {
+                continue; // quick: two of the six lists, rotating with the seed
+            }
+            let mut rng = Rng::new(seed, 24, case);
+            if !log.begin("huge", json!({"kind": "ops"})) {
+                continue;
+            }
+            let ntail: i64 = cl.iter().map(|c| c.2).sum();
+            let n = ntail + 1;
+            let pos: i64 = match rng.below(3) {
+                0 => 1,
+                1 => n,
+                _ => 1 + rng.range(1, ntail - 1),
+            };
+            let lp_dom = *rng.pick(&[0.0f64, -0.693_147_180_559_945_3, -100.0]);
+            let mut lps: Vec<LogProb> = Vec::with_capacity(n as usize);
+            for &(xm, xe, mult) in cl.iter() {
+                let lp = lp_dom + (xm as f64).ln() - xe as f64 * std::f64::consts::LN_10;
+                for _ in 0..mult {
+                    lps.push(LogProb(lp));
+                }
+            }
+            lps.insert((pos - 1) as usize, LogProb(lp_dom));
+            let cls: Vec<Value> = cl.iter().map(|c| json!([c.0, c.1, c.2])).collect();
+            log.call("hugesum", json!({"cl": cls.clone(), "pos": pos, "n": n}), || {
+                fix(*LogProb::ln_sum_exp(&lps), lp_dom, UNIT)
+            });
+            let mut at: Vec<i64> = vec![1, pos - 1, pos, pos + 1, n / 2, n - 1, n];
+            at.retain(|&k| k >= 1 && k <= n);
+            at.sort();
+            at.dedup();
+            log.call("hugecumsum", json!({"cl": cls, "pos": pos, "n": n, "at": i64s(&at)}), || {
+                let mut out: Vec<Value> = vec![];
+                let mut next = 0usize;
+                for (i, sres) in LogProb::ln_cumsum_exp(lps.iter().cloned()).enumerate() {
+                    if next < at.len() && (i as i64 + 1) == at[next] {
+                        out.push(fix(*sres, lp_dom, UNIT));
+                        next += 1;
+                    }
+                }
+                json!({"vs": Value::Array(out)})
+            });
+            log.oblige("more_than_2400000_summands");
+        }
+
         // integration grids with 10^5 .. 10^6 points: one peak cell on a piecewise constant floor
-        let grids: [(usize, i64, i64); 4] = [(1_000_001, 41, 41), (300_001, 118, 60), (100_001, 100, 119), (1_000_001, 10, 100)];
+        // (the last two: 8 000 001 points with a floor of 2e-9 = e^-20.03 of the peak)
+        let grids: [(usize, i64, i64); 6] = [(1_000_001, 41, 41), (300_001, 118, 60), (100_001, 100, 119), (1_000_001, 10, 100),
+            (8_000_001, 2, 2), (8_000_001, 2, 1)];
         for (gi, &(n, x1, x2)) in grids.iter().enumerate() {
             for rule in ["bigtrapz", "bigsimpson"].iter() {
                 case += 1;
@@ -633,6 +747,9 @@ pub fn drive(log: &mut Log) {
                     v
                 });
                 log.oblige("grid_more_than_100000_points");
+                if n > 2_400_000 {
+                    log.oblige("grid_more_than_2400000_points");
+                }
             }
         }
     }
